@@ -170,4 +170,12 @@ example : filterGoErr (some (.join [.opaque, .wrapW (.custom .notInProfile none)
 example : filterGoErr (some (.wrapV (.sentinel .missingOptional))) = some (.wrapV (.sentinel .missingOptional)) := by
   simp [filterGoErr, GoErr.is]
 
+/-- the stand-alone `ValidateHashAlgID` (the regenerated code): the nine admitted names are accepted, everything else is
+    refused with the wrong-syntax class and nothing else -/
+theorem hash_alg_id_class (v : String) :
+    (v ∈ Tie.hashAlgNames → Generated.validateHashAlgID v = .ok ()) ∧
+    (v ∉ Tie.hashAlgNames → Generated.validateHashAlgID v = .err eWrongSyntax) := by
+  rw [Tie.gen_validateHashAlgID_spec]
+  constructor <;> intro h <;> simp [h]
+
 end Psa.Props.C13
